@@ -752,6 +752,11 @@ class ProcessStatus:
         :return: True if the process is not defined anywhere anymore.
         """
         del self.info_map[identifier]
+        if self.info_map:
+            # re-evaluate the synthetic status without the contribution of the Supvisors instance
+            self.update_status(identifier, ProcessStates.STOPPED)
+        else:
+            self.running_identifiers.discard(identifier)
         return self.info_map == {}
 
     def update_status(self, identifier: str, new_state: ProcessStates) -> None:
